@@ -442,7 +442,8 @@ class Session:
         for kind, name, data, client in events:
             if kind == 'begin':
                 procs[client] = (name['p'], name)
-                out.append({'a': 'begin', 'p': name['p'], 'k': name['k'], 'u': name['u'], 'D': name['D'], 'unknown': name['unknown']})
+                out.append({'a': 'begin', 'p': name['p'], 'k': name['k'], 'u': name['u'], 'D': name['D'], 'unknown': name['unknown'],
+                            'want': sorted(name.get('want', []))})
                 continue
             if kind == 'end':
                 out.append({'a': 'end', 'p': name['p'], 'ok': name['ok'], 'fault': name['fault']})
